@@ -26,6 +26,8 @@ def order_key(v):
         return (v - datetime.datetime(1970, 1, 1)) // datetime.timedelta(microseconds=1)
     if isinstance(v, datetime.date):
         return (v - datetime.date(1970, 1, 1)).days * 86400 * 10 ** 6
+    if isinstance(v, datetime.timedelta):
+        return v // datetime.timedelta(microseconds=1)
     return v
 
 
